@@ -16,6 +16,8 @@ def run(ck, build):
             "the message enters the body only through the final xor at the same offset; the tag depends on key, nonce, AD and message through pass 1")
     ck.not_decided += ["'two messages get unrelated bodies beyond chance coincidence' is a cryptographic property of the permutation, not of the code: declined",
                        "values (no output is computed)"]
+    if modecommon.nostate_rule(ck, build, "R-C09-NOSTATE", ("siv",), "the six SIV entry points"):
+        return
     mod, fns, n = modecommon.run_mode(ck, build, ("siv",), RM, helper_fns=True, floor_obl=200)
     class _Ren:
         def __init__(self, ck_):
